@@ -342,6 +342,9 @@ def run(run, scr, tier, seed, only=None):
             run.inconclusive.append('E2 returned counterexamples that do not reproduce natively: ' + str(sess.cases[:3]))
     run.samples = [{'obligation': q.get('name') or q.get('harness'), 'verdict': q.get('verdict'), 'solver_s': q.get('solver_s')} for q in run.queries[:12]]
     run.extra['cross_checked_queries'] = sess.ncross
+    run.extra['bounds'] = ['no bound: every obligation ranges over the whole documented input domain of the kernel (all i32 in (-2143289344, 2143289344), all i64 in mont_reduce\'s documented interval, all r in Z_q, all 2^24 byte triples, all half bytes)',
+                           'partial_reduce64: inputs x << 32 with |x| < 67058539 (the only shape its caller supplies)', 'make_hint: z in [1, q], r in (-q, q) (the only shape its caller supplies)',
+                           'quick tier: center_mod and decompose over the full i32 range are decided by the E1 twins; E2 decides them on Z_q / canonical representatives']
     return run.finish(
         rule='one SMT query per obligation (functional equality with the FIPS 204 formula, range, congruence, each overflow/debug_assert site) over the whole input domain of each kernel; '
              'non-trivial = distinct obligation decided unsat by the solver (E2) or harness verified with all covers satisfied (E1)',
